@@ -28,6 +28,7 @@ from sim.streams import SimReader, SimWriter
 PROPERTY = 'C11'
 LEVEL = 'exploration'
 CASE_TIMEOUT = 180
+REPLAY_ATTEMPTS = 5      # a leak through id()-keyed state depends on address reuse, which the simulator does not own
 RULE = ('one evaluation = one step of a history (a complete call, a faulted or interrupted call, one generator step) or one '
         'document of a concatenated stream, each compared with its isolated reference; non-trivial = the step was preceded by '
         'at least one other call in the same process or document in the same stream; distinct = distinct (operation, '
@@ -153,6 +154,7 @@ def make_values():
         'scalar': 'just a string',
         'none': None,
         'nested': {'k': [{'a': [1, {'b': 2}]}, 'x'], 'z': {'y': {'x': 0}}},
+        'ukeys': {'caf\u00e9': 1, '\u4e2d\u6587': [1], 'na\u00efve key': {'\u00fc': '\u00e9'}, '\U0001F600': None, 'plain': 'caf\u00e9'},
     }
 
 
@@ -345,6 +347,12 @@ def run_op(yaml, op, ctx):
                     res = yaml.dump_all(src, stream, Dumper=D, **opts)
             elif api in ('serialize', 'serialize_all'):
                 nodes = list(yaml.compose_all(doc_text(op), Loader=yaml.SafeLoader))
+                if op.get('wrap'):
+                    nodes = [yaml.SequenceNode('tag:yaml.org,2002:seq', [nodes[0]])]
+                if op.get('same_node'):
+                    # the SAME node object as several documents, and as a child shared by two roots
+                    n0 = nodes[0]
+                    nodes = [n0] * op['same_node'] + [yaml.SequenceNode('tag:yaml.org,2002:seq', [n0]), yaml.SequenceNode('tag:yaml.org,2002:seq', [n0])]
                 res = yaml.serialize_all(nodes, stream, Dumper=D, **opts)
             else:
                 if op.get('bad'):
@@ -500,7 +508,7 @@ def gen_dump_op(r, reent_ok=True):
     return op
 
 
-VALUE_IDS = ['plain', 'shared', 'shared_list', 'rec', 'recm', 'obj', 'obj_shared', 'strs', 'set', 'dates', 'bytes', 'tuple', 'big',
+VALUE_IDS = ['ukeys', 'plain', 'shared', 'shared_list', 'rec', 'recm', 'obj', 'obj_shared', 'strs', 'set', 'dates', 'bytes', 'tuple', 'big',
              'unrepr', 'scalar', 'none', 'nested']
 
 
@@ -522,12 +530,20 @@ def generate(seed, tier):
     x = r.random()
     if x < 0.2:
         docs = [r.choice([d for d in DOC_IDS if d != 'reent']) for _ in range(r.randint(2, 6))]
+        if r.random() < 0.25:
+            # the same document several times in one stream (what a log or a stream of records looks like)
+            docs = [r.choice([d for d in VALID_DOCS if d != 'bigmb'])] * r.randint(2, 5) + docs[:1]
+            r.shuffle(docs)
         return {'mode': 'stream_load', 'docs': docs, 'api': r.choice(GEN_APIS), 'cls': r.choice(LOADERS),
                 'form': r.choice(['str', 'bytes', 'bstream', 'tstream']), 'chunk': r.choice([1, 3, 16, 100, None])}
     if x < 0.24:
-        via = r.choice(['emit', 'emit', 'serialize_all'])
-        return {'mode': 'stream_emit', 'via': via, 'docs': [r.choice(VALID_DOCS) for _ in range(r.randint(2, 5))], 'cls': r.choice(DUMPERS),
+        via = r.choice(['emit', 'emit', 'serialize_all', 'serialize_all'])
+        case = {'mode': 'stream_emit', 'via': via, 'docs': [r.choice(VALID_DOCS) for _ in range(r.randint(2, 5))], 'cls': r.choice(DUMPERS),
                 'opts': r.choice(EMIT_OPTS if via == 'emit' else sorted(SERIALIZE_OPTS))}
+        if via == 'serialize_all' and r.random() < 0.5:
+            case['same_node'] = r.randint(2, 3)
+            case['docs'] = case['docs'][:1]
+        return case
     if x < 0.27:
         return {'mode': 'stream_dump', 'evolve': r.randint(2, 5), 'vals': [], 'cls': r.choice(DUMPERS[:4]),
                 'opts': r.choice(['none', 'canonical', 'flow', 'explicit', 'unsorted', 'dq'])}
@@ -1087,7 +1103,21 @@ def execute_stream_emit(yaml, case, out):
             out['log'] = 'skip'
             return out
         expected.append(alone[0])
-    status, res = kernel.forked(lambda: run_op(yaml, dict(base, docs=case['docs']), new_ctx()), timeout=60)
+    stream_op = dict(base, docs=case['docs'])
+    if case.get('same_node'):
+        want, _ = reference(dict(base, docs=case['docs'][:1], wrap=True))
+        try:
+            wrapped = doc_events(yaml, want['returned']) if want['exc'] is None else []
+        except yaml.YAMLError:
+            wrapped = []
+        if len(wrapped) != 1:
+            out['extra']['stream_emit_document_not_reparsable_alone'] = 1
+            out['log'] = 'skip'
+            return out
+        expected = [expected[0]] * case['same_node'] + [wrapped[0], wrapped[0]]
+        stream_op['same_node'] = case['same_node']
+        out['probes']['serialize_all_with_one_node_object_in_several_documents'] = 1
+    status, res = kernel.forked(lambda: run_op(yaml, stream_op, new_ctx()), timeout=60)
     if status != 'ok':
         if status == 'error':
             raise RuntimeError(res)
